@@ -499,6 +499,12 @@ func seed(t *rapid.T, m *ref.SpecModel, kind string, i int) {
 			insertAt(t, m, &ref.Decl{Kind: "directive", Assoc: "@right", Semi: true, Handles: []*ref.Handle{{Rule: one}}}, "pos2")
 			return
 		}
+		if r := firstRule(m); r != nil && rapid.IntRange(0, 3).Draw(t, "emptyHandle") == 0 {
+			// the empty production of a rule named in two levels
+			insertAt(t, m, &ref.Decl{Kind: "directive", Assoc: "@left", Semi: true, Handles: []*ref.Handle{{Rule: &ref.Decl{Kind: "rule", Name: r.Name}}}}, "pos1")
+			insertAt(t, m, &ref.Decl{Kind: "directive", Assoc: "@right", Semi: true, Handles: []*ref.Handle{{Term: &ref.RHS{K: "str", Name: fmt.Sprintf("he%d", i)}}, {Rule: &ref.Decl{Kind: "rule", Name: r.Name}}}}, "pos2")
+			return
+		}
 		lit := fmt.Sprintf("h%d", i)
 		insertAt(t, m, &ref.Decl{Kind: "directive", Assoc: "@left", Semi: true, Handles: []*ref.Handle{{Term: &ref.RHS{K: "str", Name: lit}}}}, "pos1")
 		insertAt(t, m, &ref.Decl{Kind: "directive", Assoc: rapid.SampledFrom([]string{"@left", "@right", "@none"}).Draw(t, "assoc"), Semi: true, Handles: []*ref.Handle{{Term: &ref.RHS{K: "str", Name: "+"}}, {Term: &ref.RHS{K: "str", Name: lit}}}}, "pos2")
@@ -567,6 +573,12 @@ func TestSeededDefects(t *testing.T) {
 		for _, d := range m.Decls {
 			if d.Kind == "token" && d.TokKind == "string" && rapid.IntRange(0, 2).Draw(t, "escapedEnd") == 0 {
 				d.Text = rapid.SampledFrom([]string{`\"`, `z\"\"`, `y\\`, `w\"`}).Draw(t, "tokenText")
+			}
+		}
+		// patterns that begin or end with a blank (a blank is a pattern character like any other)
+		for _, d := range m.Decls {
+			if d.Kind == "token" && d.TokKind == "regex" && rapid.IntRange(0, 3).Draw(t, "blankEnd") == 0 {
+				d.Text = rapid.SampledFrom([]string{" ", "", " "}).Draw(t, "lead") + d.Text + rapid.SampledFrom([]string{" ", "  ", ""}).Draw(t, "trail")
 			}
 		}
 		var seeded []string
